@@ -170,3 +170,15 @@ Lemma exclude_independence_threshold_refuted :
       (fst (run_filtered h0 u0 o0 no_skip w7_ex [] positional33 (VDict w7_rest1) (VDict w7_rest2))) =
     [(KValue, [])].
 Proof. vm_compute. repeat split; reflexivity. Qed.
+
+(* ---- W9: default alignment, an include path ending in a LIST INDEX of a leaf list: the pass choice
+        counts the filtered entries ---- *)
+Definition w9_Q : list path := [[PIdx 1]].
+Lemma include_default_index_refuted :
+  map render w9_Q = [s2p "root[1]"] /\ zip default0 = false /\ thr_num default0 = 0 /\ wf w2_t2 = true /\
+  map (fun e => (ekind e, ep1 e)) (fst (run_filtered h0 u0 w2_ops no_skip [] (map render w9_Q) default0 w2_t1 w2_t2)) =
+    [(KIterAdd, [PIdx 1])] /\
+  map (fun e => (ekind e, ep1 e))
+      (filter (fun e => related w9_Q (ep1 e)) (fst (run_diff h0 u0 w2_ops no_skip no_skip default0 w2_t1 w2_t2))) =
+    [(KValue, [PIdx 1])].
+Proof. vm_compute. repeat split; reflexivity. Qed.
